@@ -55,14 +55,15 @@ def norm_fp_items(items):
 
 def low_digits(text, base):
     """n if `text` is the slice term of the last n items of `base` (base[-n:], base[len(base) - n:], .. [: len(base)]), else None."""
-    m = re.match(r'^SLICE\(%s;(.*);(.*)\)$' % re.escape(base), text or '')
+    m = re.match(r'^SLICE\((%s|str\(%s\));(.*);(.*)\)$' % (re.escape(base), re.escape(base)), text or '')
     if not m:
         return None
-    lo, hi = m.group(1), m.group(2)
-    if hi not in ('', 'len(%s)' % base):
+    lo, hi = m.group(2), m.group(3)
+    lens = ('len(%s)' % base, 'len(str(%s))' % base)
+    if hi not in ('',) + lens:
         return None
     terms, c = lin_parse(lo) if lo else ({}, 0)
-    if c < 0 and terms in ({}, {'len(%s)' % base: 1}):
+    if c < 0 and (terms == {} or terms in ({lens[0]: 1}, {lens[1]: 1})):
         return -c
     return None
 
